@@ -96,7 +96,7 @@ PLANS["C14"] = {"level": "exploration", "parts": [("generic", "gen", 20000, 4000
                                 "(DESIGN 3.4 rule 2): objects accept trailing bytes and the oracle expects request_data + route",
                                 "unconnected_send=True with route_path=False and bytes ids of length other than 1/2/4 are not generated "
                                 "(DESIGN 6 C14)"]}
-PLANS["C16"] = {"level": "exploration", "parts": [("generic", "gen", 16000, 400000)], "budget_s": {"quick": 90, "thorough": 900},
+PLANS["C16"] = {"level": "exploration", "parts": [("generic", "directed", None, None), ("generic", "gen", 16000, 400000)], "budget_s": {"quick": 90, "thorough": 900},
                 "rule": GEN_RULE, "real": LOGIX_REAL, "stub": LOGIX_STUB,
                 "assumptions": ["vendor / product-type NAMES come from the library's own tables (naming dictionary only); ids, "
                                 "widths, order and formatting are the reference's",
